@@ -35,7 +35,7 @@ check("C05", "exploration", _W + "requests carry 0-3 spoofed copies of each prox
       "runtime monitoring: sentinel (taint) headers + header-line oracle at the mock host", "DESIGN.md 3 C05")
 check("C07", "exploration", _W + "histories with immediate source-port reuse (with and without a fresh record), keep-alive connections and bursts of 32-96 concurrently accepted connections each with its own identity under a "
       "user-dependent rule set; oracles over client status, upstream claims header, the stand-in event log (lookup then remove per port) and the agent's own connection-summary lines; delay points on in half of the runs.", _WN,
-      "runtime monitoring: history oracle with unique ids + event-log checker (lookup/remove pairing) under concurrency", "DESIGN.md 3 C07")
+      "runtime monitoring: history oracle with unique ids + event-log checker (lookup/remove pairing) under concurrency; plus a real-kernel section (real BPF maps through the production aya glue, connects diverted by the kernel's connect4 program)", "DESIGN.md 3 C07, 7.5")
 check("C10", "exploration", _W + "8-32 keep-alive clients plus the real EventReader sign requests while the latched key is replaced/cleared thousands of times through the key keeper's own API, with the get_key delay point (H2) "
       "widening the window; the mock verifies each MAC under the secret registered for the announced key id; the evidence counts requests that straddled a rotation (>=300 required).", _WN + " Interleavings are sampled, not enumerated.",
       "runtime monitoring: stress + injected delays at an existing await + per-request HMAC oracle keyed by announced key id", "DESIGN.md 3 C10")
@@ -63,7 +63,7 @@ check("C12", "exploration", "Taint search: every key the mock host latched is se
       "Only latched keys are secrets of interest; memory/core dumps are out of scope. Evidence lists bytes scanned per sink.", "runtime monitoring: taint/needle search over all observable sinks + syscall-order monitor (strace)", "DESIGN.md 3 C12")
 check("C13", "exploration", "Process-wide panic hook plus liveness probes while the anchored sites are driven with strings whose multi-byte characters straddle the 1024/4096 cut offsets at every alignment, header values with bytes >= 0x80, "
       "very long URLs, real callers with multi-byte command lines/user names, and hostile host replies (content types x charsets x frame splits, odd-length UTF-16).",
-      "A site not reached by the workload is reported per site in the evidence; debug build (overflow checks on).", "runtime monitoring: panic observer + boundary-alignment input generator at every anchored truncation/decoding site", "DESIGN.md 3 C13")
+      "A site not reached by the workload is reported per site in the evidence; debug build (overflow checks on).", "runtime monitoring: panic observer + boundary-alignment input generator at every anchored truncation/decoding site + background-task liveness under hostile host replies, timed notifications and delay points; Miri replay in thorough", "DESIGN.md 3 C13, 7.2")
 check("C16", "exploration", "Fresh shim process per history on a multi-thread runtime: real provision functions called from separate threads in production-shaped roles with H2 delay points between the two actor messages; every call is timed at the caller and each "
       "query (getter and HTTP /provision with hostile ticks) must be explained by some linearization of a sequential spec written from the statement; quiescent invariant; status.tag read in a tight loop and watched with inotify.",
       "Per-query linearizability (not joint); ticks inside the establishing operation's interval are not judged.", "runtime monitoring: recorded concurrent histories + linearizability search against a sequential model, inotify/torn-read monitor for the tag file", "DESIGN.md 3 C16")
@@ -74,8 +74,8 @@ check("C20", "exploration", "All 2^L observation sequences up to L=16 (quick) / 
 
 check("C06", "exploration", "A user-space ASan+UBSan build of the unmodified eBPF C program runs generated worlds (tasks with uid!=gid, threads, the agent's own pid, TCP/UDP, IPv4/IPv6, listed and near-miss destinations, failing connects) with the two hook "
       "invocations interleaved across threads; policy keys/values are the bytes the Rust side really produces (hook H1) and every audit value the C program writes is decoded by the production Rust decoders; a Python reference of the statement judges "
-      "the rewritten context and the audit map.", "The helper/map behaviour is a model of the documented semantics, not a kernel: verifier acceptance, struct sock_common offsets, attach points and the aya glue are out of reach (no kprobes/libbpf here).",
-      "sanitizers (ASan+UBSan) on the native eBPF source in user space + reference-model monitor + cross-language decode loop", "DESIGN.md 3 C06")
+      "the rewritten context and the audit map.", "The second hook (kprobe) runs only in the model (this kernel has no kprobes): its struct sock_common offsets against a running kernel are out of reach. The first hook, the map glue and the policy keys are additionally exercised in the real kernel.",
+      "sanitizers (ASan+UBSan) on the native eBPF source in user space + reference-model monitor + cross-language decode loop + real-kernel run (kernel verifier, connect4 attached to a private cgroup, real connects by real processes)", "DESIGN.md 3 C06, 7.5")
 check("C17", "exploration", "The real (release-profile) proxy_agent_setup binary is chroot-ed into a private overlay copy of the root file system with a stand-in systemctl that snapshots the four system files; PRNG command histories from three initial states "
       "are judged by an executable file-tree model of each command's stated effect, byte-identity after backup;install;restore, stop-before-change/start-after-change, and confinement of all changes (overlay upper dir + strace of write-type syscalls).",
       "File modes are not compared; the extension's orchestration of the tool is not driven. Release profile because clap's debug assertions abort debug builds on `restore`.",
